@@ -10,7 +10,7 @@
    gnutls_handshake returns success only if both ends presented the same key.
    Statements only; proofs in Tls/GateProofs.v. *)
 From LibcoapV Require Import Base.Tactics Base.Bytes Tls.Gate Tls.GateProofs Tls.GateNack Tls.GateFifo
-  Tls.GateMisc.
+  Tls.GateMisc Tls.GateTcp Tls.GateTcpProofs Tls.GateTcpNack.
 Local Open Scope Z_scope.
 
 (* On a DTLS session the session layer never writes cleartext to the socket: for every oracle,
@@ -203,3 +203,120 @@ Theorem C19_example_udp_clear :
   In (OWireClear [64; 2; 0; 1]) (tg_outs tr).
 Proof. exact tg_ex_udp_clear. Qed.
 Print Assumptions C19_example_udp_clear.
+
+(* ==================================================================================================
+   TLS over TCP: the session machine CONNECTING -> HANDSHAKE -> CSM -> ESTABLISHED (Tls/GateTcp.v:
+   coap_connect_session / coap_new_server_session, coap_tls_establish, coap_session_send_csm,
+   handle_signaling, coap_client_delay_first, coap_send_pdu, coap_session_connected,
+   coap_tls_read / coap_tls_write, coap_read_session, coap_session_disconnected_lkd,
+   coap_session_mfree), same oracle. c = client session / server session. *)
+
+Theorem C19_tcp_no_clear : forall O c evs s' tr b,
+  tgt_steps O (tgt_new_session c) evs = (s', tr) -> ~ In (OWireClear b) (tgt_outs tr).
+Proof. exact tgt_no_clear. Qed.
+Print Assumptions C19_tcp_no_clear.
+
+(* nothing is dispatched and nothing is handed to the record layer before gnutls_handshake
+   succeeded; no application message (anything but the CSM) before the session was declared
+   connected *)
+Theorem C19_tcp_gate : forall O c evs s' tr l1 x l2,
+  tgt_steps O (tgt_new_session c) evs = (s', tr) -> tgt_outs tr = l1 ++ x :: l2 ->
+  (tg_is_app x = true -> In (OHs 0) l1) /\
+  (tgt_is_apptx x = true -> In (OEvent tg_EV_SESSION_CONNECTED) l1).
+Proof. exact tgt_gate. Qed.
+Print Assumptions C19_tcp_gate.
+
+(* ESTABLISHED needs the handshake success AND the connected declaration ... *)
+Theorem C19_tcp_established_after : forall O c evs s' tr,
+  tgt_steps O (tgt_new_session c) evs = (s', tr) -> tt_state s' = TgEstablished ->
+  In (OHs 0) (tgt_outs tr) /\ In (OEvent tg_EV_SESSION_CONNECTED) (tgt_outs tr).
+Proof. exact tgt_established_after. Qed.
+Print Assumptions C19_tcp_established_after.
+
+(* ... which only the peer's CSM or the CSM time-out of coap_client_delay_first make *)
+Theorem C19_tcp_connected_only_by : forall O s e s' o,
+  tgt_step O s e = (s', o) -> In (OEvent tg_EV_SESSION_CONNECTED) o ->
+  e = TDispatch 3 \/ e = TFirstTimeout.
+Proof. exact tgt_connected_only_by. Qed.
+Print Assumptions C19_tcp_connected_only_by.
+
+Theorem C19_tcp_mismatch_never_established : forall O cc sc,
+  (forall k, or_hs O k = 0 -> tg_creds_match cc sc = true) ->
+  forall c evs s' tr,
+  tg_creds_match cc sc = false ->
+  tgt_steps O (tgt_new_session c) evs = (s', tr) ->
+  tt_state s' <> TgEstablished /\ (forall x, In x (tgt_outs tr) -> tg_is_app x = false).
+Proof. exact tgt_mismatch_never_established. Qed.
+Print Assumptions C19_tcp_mismatch_never_established.
+
+(* failure: every message the application got queued is NACKed exactly once or is still queued
+   (conservation, in order; count form in Tls/GateTcpNack.v), nothing reaches the record layer,
+   and once the socket is closed (handshake failed / session released) nothing is queued *)
+Theorem C19_tcp_nack_conservation : forall O, (forall k, or_hs O k <> 0) ->
+  forall evs s' tr,
+  Forall tgt_app_only evs -> tgt_steps O (tgt_new_session true) evs = (s', tr) ->
+  tg_dcon_ids (tgt_outs tr) = tg_nack_ids (tgt_outs tr) ++ tgt_qcon_ids s' /\
+  (forall i c, ~ In (OTlsTx i c) (tgt_outs tr)) /\ tt_state s' <> TgEstablished.
+Proof. exact tgt_nack_conservation. Qed.
+Print Assumptions C19_tcp_nack_conservation.
+Theorem C19_tcp_nack_count : forall O, (forall k, or_hs O k <> 0) ->
+  forall evs s' tr i,
+  Forall tgt_app_only evs -> tgt_steps O (tgt_new_session true) evs = (s', tr) ->
+  count_occ Z.eq_dec (tg_dcon_ids (tgt_outs tr)) i =
+  (count_occ Z.eq_dec (tg_nack_ids (tgt_outs tr)) i + count_occ Z.eq_dec (tgt_qcon_ids s') i)%nat.
+Proof. exact tgt_nack_count. Qed.
+Print Assumptions C19_tcp_nack_count.
+Theorem C19_tcp_closed_all_nacked : forall O, (forall k, or_hs O k <> 0) ->
+  forall evs s' tr,
+  Forall tgt_app_only evs -> tgt_steps O (tgt_new_session true) evs = (s', tr) ->
+  tt_sock s' = false ->
+  tt_delayq s' = [] /\ tg_dcon_ids (tgt_outs tr) = tg_nack_ids (tgt_outs tr).
+Proof. exact tgt_closed_all_nacked. Qed.
+Print Assumptions C19_tcp_closed_all_nacked.
+
+(* success: FIFO flush *)
+Theorem C19_tcp_success_flush : forall O c evs s' tr,
+  Forall tgt_fifo_ev evs -> tgt_steps O (tgt_new_session c) evs = (s', tr) ->
+  tt_freed s' = false -> tg_nonack (tgt_outs tr) = true ->
+  tgt_flushed tr ++ tg_ids (tt_delayq s') = tgt_delayed tr.
+Proof. exact tgt_success_flush. Qed.
+Print Assumptions C19_tcp_success_flush.
+
+Theorem C19_tcp_accepts_sound : forall O tr s,
+  tgt_accepts O s tr = true -> snd (tgt_steps O s (map (fun x => fst (fst x)) tr)) = map fst tr.
+Proof. exact tgt_accepts_sound. Qed.
+Print Assumptions C19_tcp_accepts_sound.
+
+(* concrete runs: queued during connection set-up and flushed in order after the CSM exchange;
+   failed handshake with two NACKs; a request dispatched in state CSM (libcoap does not look at
+   the session state when it dispatches: delivery needs the handshake, not ESTABLISHED); the CSM
+   time-out declares the session connected without the peer's CSM *)
+Theorem C19_tcp_example_success :
+  let '(s', tr) := tgt_steps tgt_ex_ok (tgt_new_session true)
+      [TConnect; TConnected true; TFirstTimeout; TSend (tgt_m 1) true; TSend (tgt_m 2) true;
+       TRead; TRead; TDispatch 3; TSend (tgt_m 3) true] in
+  tt_state s' = TgEstablished /\ tgt_flushed tr = [1; 2] /\ tgt_delayed tr = [1; 2] /\
+  tt_delayq s' = [] /\ tg_nonack (tgt_outs tr) = true /\
+  In (OTlsTx 3 40) (tgt_outs tr) /\ In (OTlsTx tgt_CSM_ID 40) (tgt_outs tr).
+Proof. exact tgt_ex_success. Qed.
+Print Assumptions C19_tcp_example_success.
+Theorem C19_tcp_example_failure :
+  let '(s', tr) := tgt_steps tg_ex_oracle_bad (tgt_new_session true)
+      [TConnect; TConnected true; TFirstTimeout; TSend (tgt_m 1) true; TSend (tgt_m 2) true;
+       TRead; TSend (tgt_m 3) true] in
+  tt_state s' = TgNone /\ tg_nack_ids (tgt_outs tr) = [1; 2] /\ tg_dcon_ids (tgt_outs tr) = [1; 2] /\
+  tgt_txok_ids (tgt_outs tr) = [] /\ tt_delayq s' = [] /\ tt_sock s' = false.
+Proof. exact tgt_ex_failure. Qed.
+Print Assumptions C19_tcp_example_failure.
+Theorem C19_tcp_example_deliver_in_csm :
+  let '(s', tr) := tgt_steps tgt_ex_ok (tgt_new_session false) [TAccept; TRead; TDispatch 1] in
+  tt_state s' = TgCsm /\ In (ODeliver 1 0) (tgt_outs tr).
+Proof. exact tgt_ex_deliver_in_csm. Qed.
+Print Assumptions C19_tcp_example_deliver_in_csm.
+Theorem C19_tcp_example_csm_timeout :
+  let '(s', tr) := tgt_steps tgt_ex_ok (tgt_new_session true)
+      [TConnect; TConnected true; TRead; TFirstTimeout; TSend (tgt_m 1) true] in
+  tt_state s' = TgEstablished /\ In (OTlsTx 1 40) (tgt_outs tr) /\
+  ~ In (ODeliver 3 0) (tgt_outs tr).
+Proof. exact tgt_ex_csm_timeout. Qed.
+Print Assumptions C19_tcp_example_csm_timeout.
